@@ -148,6 +148,9 @@ var c13Confirmed int
 
 var editAlphabet = []byte("{}%'\"/*<>:|;$\n \\-0a")
 
+// characters outside ASCII that Unicode classifies as letters, digits, spaces or line separators
+var editUnicode = []string{"é", "Σ", "٣", "１", "৪", "\u00a0", "\u2028", "\u3000", "ⅷ", "²", "\ufeff", "加", "\xff", "\xc3"}
+
 func c13Edit(r *rand.Rand, bases []string) string {
 	s := bases[r.Intn(len(bases))]
 	n := 1 + r.Intn(3)
@@ -160,7 +163,11 @@ func c13Edit(r *rand.Rand, bases []string) string {
 		case 0:
 			s = s[:p] + s[p+1:]
 		case 1:
-			s = s[:p] + string(editAlphabet[r.Intn(len(editAlphabet))]) + s[p:]
+			ins := string(editAlphabet[r.Intn(len(editAlphabet))])
+			if r.Intn(4) == 0 {
+				ins = editUnicode[r.Intn(len(editUnicode))]
+			}
+			s = s[:p] + ins + s[p:]
 		case 2:
 			if p+1 < len(s) {
 				b := []byte(s)
